@@ -148,7 +148,10 @@ func runSched(c *ctx, plan []famCount, race bool) *schedAgg {
 			fmt.Fprintf(os.Stderr, "child %d %s[%d..%d) wall=%v exit=%d\n", i, j.fam, j.from, j.from+j.count, r.Wall, r.ExitCode)
 		}
 		b, err := os.ReadFile(j.out)
-		if err != nil || r.ExitCode != 0 {
+		// Under the race detector (halt_on_error=0) a process that saw a race runs
+		// to the end and exits with status 66: its results are good, and the race
+		// reports are collected from the log files.
+		if err != nil || (r.ExitCode != 0 && !(race && r.ExitCode == 66)) {
 			last := lastBegin(j.prog)
 			if r.TimedOut {
 				c.R.Inconclusive(fmt.Sprintf("engine S child %s[%d..%d) exceeded the hard time limit at scenario %s", j.fam, j.from, j.from+j.count, last))
